@@ -239,6 +239,9 @@ class Node:
     def _send(self, line):
         if "\n" in line:
             raise ValueError("newline in request")
+        if os.environ.get("VP_CMDLOG"):
+            with open(os.environ["VP_CMDLOG"], "a") as f:
+                f.write(line + "\n")
         try:
             self.proc.stdin.write(line.encode("utf-8") + b"\n")
             self.proc.stdin.flush()
